@@ -342,7 +342,9 @@ func loadLocation(tz string) *time.Location {
 
 func (tv *Timestamp) Equals(o interface{}, g px.Guard) bool {
 	if ov, ok := o.(*Timestamp); ok {
-		return (*time.Time)(tv).Equal(*(*time.Time)(ov))
+		// Round(0) strips the monotonic clock reading. Equal compares two times that both carry such a reading
+		// by those readings alone, the hash key and the text are made from the wall clock reading.
+		return (*time.Time)(tv).Round(0).Equal((*time.Time)(ov).Round(0))
 	}
 	return false
 }
